@@ -4,6 +4,8 @@
 //!   bits modhex                                            Context::num_modulus_bits
 //!   conj b g ext log2len modhex hname cr                   security_level::<H>(true) for q = 1..255 (run-length coded)
 //!   prov b g ext log2len modhex hname cr q1 q2             security_level::<H>(false) for q = q1..q2
+//!   gconj b g ext log2len modhex hname cr                  the same sweep as `conj`; the model side evaluates the definition REGENERATED from
+//!                                                          get_conjectured_security (Winter/Gen/Security.lean): translation validation (tie T)
 //!   alpha b log2len                                        side condition 0 <= 1-theta_plus < 1 over the m range
 //!   validate POL q b g ext ff fr log2len modhex hname cr [k o..]            AcceptableOptions::validate
 //!   verify CFG EB airmodhex quad cube airok POL q b g ext ff fr log2len modhex hname cr [k o..]   verify()
@@ -336,6 +338,28 @@ fn sweep(conj: bool, t: &[&str]) -> Outcome {
     }
     o.out = rle(&outs);
     o
+}
+
+/// the queries sweep of `conj` without the oracle's neighbour evaluations: these lines are compared with the
+/// Lean definition regenerated from `get_conjectured_security` on this run (translation validation)
+fn sweep_plain(t: &[&str]) -> Outcome {
+    let p = |s: &str| s.parse::<u64>().ok();
+    let (Some(b), Some(g), Some(e), Some(l2), Some(cr)) = (p(t[0]), p(t[1]), p(t[2]), p(t[3]), p(t[6])) else {
+        return Outcome::ok("bad-op");
+    };
+    let Some(modulus) = unhex_opt(t[4]) else { return Outcome::ok("bad-op") };
+    if cr_of(t[5]) != Some(cr as u32) || modulus.is_empty() || l2 > 63 || b > 255 || g > 255 {
+        return Outcome::ok("bad-op");
+    }
+    let mut outs = vec![];
+    for q in 1..=255u64 {
+        let op = Opt { q, b, g, ext: e, ff: 8, fr: 0 };
+        let Some(l) = level(t[5], &op, l2 as u8, &modulus, true) else {
+            return Outcome::ok("noctx");
+        };
+        outs.push(show(l));
+    }
+    Outcome::ok(rle(&outs))
 }
 
 // ------------------------------------------------------------------------------------ alpha side condition
@@ -943,6 +967,7 @@ fn exec_line(line: &str) -> Outcome {
             o
         },
         ["conj", _, _, _, _, _, _, _] => sweep(true, &t[1..]),
+        ["gconj", _, _, _, _, _, _, _] => sweep_plain(&t[1..]),
         ["prov", _, _, _, _, _, _, _, _, _] => sweep(false, &t[1..]),
         ["alpha", b, l2] => {
             let (Some(b), Some(l2)) = (p(b), p(l2)) else { return Outcome::ok("bad-op") };
@@ -1077,6 +1102,10 @@ fn gen_all(rng: &mut Rng, tier: Tier, n: usize, emit: &mut dyn FnMut(String)) {
                     for g in &g_grid {
                         for h in &h_grid {
                             emit(format!("conj {} {} {} {} {} {} {}", b, g, e, l2, hex(m), h, cr_of(h).unwrap()));
+                            // translation validation of the regenerated definition: smallest / largest grinding factor
+                            if (*g == g_grid[0] || *g == g_grid[g_grid.len() - 1]) && *h == h_grid[0] {
+                                emit(format!("gconj {} {} {} {} {} {} {}", b, g, e, l2, hex(m), h, cr_of(h).unwrap()));
+                            }
                         }
                     }
                 }
@@ -1108,8 +1137,8 @@ fn gen_all(rng: &mut Rng, tier: Tier, n: usize, emit: &mut dyn FnMut(String)) {
             m = vec![0u8; len];
         }
         let h = *rng.pick(&HNAMES);
-        emit(format!(
-            "conj {} {} {} {} {} {} {}",
+        let tail = format!(
+            "{} {} {} {} {} {} {}",
             rng.pick(&BLOWUPS),
             rng.range(0, 32),
             rng.range(1, 3),
@@ -1117,7 +1146,9 @@ fn gen_all(rng: &mut Rng, tier: Tier, n: usize, emit: &mut dyn FnMut(String)) {
             hex(&m),
             h,
             cr_of(h).unwrap()
-        ));
+        );
+        emit(format!("conj {}", tail));
+        emit(format!("gconj {}", tail));
     }
     // --- alpha side condition: the whole (blowup x trace length) grid
     for b in BLOWUPS {
@@ -1578,7 +1609,7 @@ fn gen_all(rng: &mut Rng, tier: Tier, n: usize, emit: &mut dyn FnMut(String)) {
         }
     }
     // --- malformed stream
-    for l in ["", "conj", "conj 8 20 3 18 zz b3_256 128", "prov 8 20 3 18 01 b3_256 128 5", "opts 1 2 3", "validate conj", "verify x", "bits zz", "alpha 0 3", "alpha 8 64", "opts 1 2 0 4 2 0", "bits -", "conj 8 20 3 64 01000000ffffffff b3_256 128"] {
+    for l in ["", "conj", "conj 8 20 3 18 zz b3_256 128", "prov 8 20 3 18 01 b3_256 128 5", "opts 1 2 3", "validate conj", "verify x", "bits zz", "alpha 0 3", "alpha 8 64", "opts 1 2 0 4 2 0", "bits -", "conj 8 20 3 64 01000000ffffffff b3_256 128", "gconj", "gconj 8 20 3 64 01000000ffffffff b3_256 128", "gconj 8 20 3 18 zz b3_256 128"] {
         emit(l.to_string());
     }
 }
@@ -1616,7 +1647,7 @@ impl Prop for P {
             "tag" | "lvl" => t[0].to_string(),
             "validate" => format!("validate.{}", t.get(1).unwrap_or(&"")),
             "verify" => format!("verify.{}.{}", t.get(1).unwrap_or(&"").split('/').next().unwrap_or(""), t.get(7).unwrap_or(&"")),
-            "opts" | "optsb" | "ctx" | "plevel" | "bits" | "conj" | "prov" | "alpha" => t[0].to_string(),
+            "opts" | "optsb" | "ctx" | "plevel" | "bits" | "conj" | "gconj" | "prov" | "alpha" => t[0].to_string(),
             _ => "malformed".into(),
         };
         let o = if out == "bad-op" || out == "noctx" {
@@ -1625,7 +1656,7 @@ impl Prop for P {
             out.split(' ').take(2).collect::<Vec<_>>().join("-")
         } else if out == "panic" || out == "hang" || out == "abort" || out == "pass" {
             out.to_string()
-        } else if out.contains('p') && (t[0] == "conj" || t[0] == "prov") {
+        } else if out.contains('p') && (t[0] == "conj" || t[0] == "gconj" || t[0] == "prov") {
             "ok+panics".into()
         } else {
             "ok".into()
